@@ -425,7 +425,8 @@ def h_e_render_extend(a: int, h1: int, h2: int, is_cnf: bool, li: int) -> bool:
     pre: 0 <= a <= 11 and 0 <= h1 <= 11 and 0 <= h2 <= 11 and 0 <= li <= 2
     post: _
     """
-    return untraced(_render_extend, pick(a, 0, 11), pick(h1, 0, 11), pick(h2, 0, 11), pickb(is_cnf), pick(li, 0, 2))
+    a, h1, h2 = pick(a, 0, 11), pick(h1, 0, 11), pick(h2, 0, 11)
+    return untraced(_render_extend, a, h1, h2, pickb(is_cnf), (a + h1 + h2) % 3)      # label format derived: 3456 paths
 
 
 class _Named:
